@@ -422,7 +422,14 @@ func (m *Mux) serveHTTP(w http.ResponseWriter, r *http.Request) error {
 			// TODO: limit message size.
 
 			code := WSStatusCode(s.Code())
-			f := ws.NewCloseFrame(ws.NewCloseFrameBody(code, s.Message()))
+			// A close frame carries at most 123 bytes of reason, which
+			// must be valid UTF-8: cut on a character boundary.
+			reason := strings.ToValidUTF8(s.Message(), "\uFFFD")
+			for len(reason) > ws.MaxControlFramePayloadSize-2 {
+				_, n := utf8.DecodeLastRuneInString(reason)
+				reason = reason[:len(reason)-n]
+			}
+			f := ws.NewCloseFrame(ws.NewCloseFrameBody(code, reason))
 			b, err := ws.CompileFrame(f)
 			if err != nil {
 				return err
